@@ -308,6 +308,9 @@ GEO_TWEAKS = [
     ('Starting Heat Sale Price', ['0.05\nEnding Heat Sale Price, 0.03', '0.04\nEnding Heat Sale Price, 0.025\nEnd-Use Option, 2']),
     # whole numbers with seven and more significant digits (printed with all-zero decimals)
     ('Fracture Shape', ['1\nFracture Area, 2345678', '4\nFracture Height, 1111\nFracture Width, 1111', '1\nFracture Area, 1234321\nReservoir Model, 1']),
+    # lengths whose preferred unit is the meter, stated in kilometers (the other direction of 'Reservoir Depth, 2800 m')
+    ('Fracture Height', ['0.6 kilometer\nFracture Shape, 4\nFracture Width, 0.5 kilometer', '0.45 kilometer\nFracture Shape, 3']),
+    ('Injection Reservoir Depth', ['2.5 kilometer\nOverpressure Percentage, 130.0\nOverpressure Depletion Rate, 5.0\nInjection Reservoir Temperature, 80\nInjection Reservoir Inflation Rate, 100']),
     ('Units:Total O&M Cost', ['KUSD/yr']),
     ('Units:Annual Revenue from Electricity Production', ['KUSD/yr']),
     ('Units:Electricity Sale Price Model', ['USD/kWh']),
